@@ -34,7 +34,7 @@ def eval_configs(tier):
 def grid(n, bounds):
   axes = []
   for b in bounds:
-    pts = [-1e4, LO - 1.5, LO, (LO + HI) / 2, 0.25, HI, HI + 1.5, 1e4]
+    pts = [-1e6, -1e4, LO - 1.5, LO, (LO + HI) / 2, 0.25, HI, HI + 1.5, 1e4, 1e6]
     axes.append(pts)
   return np.array(list(itertools.product(*axes)), dtype=np.float64)
 
@@ -71,9 +71,11 @@ def ref_linear(cfg, kernel, bias, X):
     if b == "zhi":
       Xc[..., i] = np.minimum(Xc[..., i], ZHI)
   out = np.einsum("bui,iu->bu", Xc, kernel)
+  mag = np.einsum("bui,iu->bu", np.abs(Xc), np.abs(kernel))  # condition of the float32 sum
   if cfg["use_bias"]:
     out = out + np.asarray(bias)[None, :]
-  return out
+    mag = mag + np.abs(np.asarray(bias))[None, :]
+  return out, mag
 
 
 def eval_case(cfg, ctx=None):
@@ -96,12 +98,12 @@ def eval_case(cfg, ctx=None):
     else:
       X = np.stack([np.roll(Xg, 7 * u, axis=0) for u in range(units)], axis=1)
       out = np.asarray(layer(tf.constant(X.astype(np.float32))), dtype=np.float64)
-    ref = ref_linear(cfg, K, bias, X)
+    ref, mag = ref_linear(cfg, K, bias, X)
     total += ref.size
     if out.shape != ref.shape:
       msgs.append("output shape %s, expected %s" % (out.shape, ref.shape))
       break
-    e = np.abs(out - ref) / np.maximum(1, np.abs(ref))
+    e = np.abs(out - ref) / np.maximum(1, mag)
     if not (e.max() <= TOL):
       r, u = np.unravel_index(e.argmax(), e.shape)
       msgs.append("kernel column %s bias %s input %s: layer %.6g, reference %.6g" %
